@@ -211,6 +211,37 @@ def conforms [DecidableEq σ] (blank : σ → Bool) (s : Schema σ) : J σ → B
   | .obj kv => idOk blank s kv && fieldsStrict s kv
   | _ => false
 
+/-! ## typed leaves inside nested values (what add time does not look at) -/
+
+mutual
+/-- every leaf value inside the nested value is typed as the documentation demands (what
+`NestedProperty::validate_value` does not check: elements of arrays, integrality of i64) -/
+def leavesTyped [DecidableEq σ] (n : Nested σ) : J σ → Bool
+  | .arr a => leavesTypedElems n a
+  | .obj kv => leavesTypedEntries n.props kv
+  | _ => true
+def leavesTypedElems [DecidableEq σ] (n : Nested σ) : JL σ → Bool
+  | .nil => true
+  | .cons h t =>
+    (match h with
+     | .obj kv => leavesTypedEntries n.props kv
+     | _ => true) && leavesTypedElems n t
+def leavesTypedEntries [DecidableEq σ] (props : NProps σ) : JO σ → Bool
+  | .nil => true
+  | .cons k v t =>
+    (match props.find k with
+     | some (.leaf l) => leafStrict l v
+     | some (.object child) => leavesTyped child v
+     | none => true) && leavesTypedEntries props t
+end
+
+def leavesTypedTop [DecidableEq σ] (s : Schema σ) : JO σ → Bool
+  | .nil => true
+  | .cons k v t =>
+    (match s.findNested k with
+     | some n => leavesTyped n v
+     | none => true) && leavesTypedTop s t
+
 /-- no nested field is called like the id field (then the id entry itself is validated as a
 nested value and nothing can be added at all) -/
 def idNotNested [DecidableEq σ] (s : Schema σ) : Bool :=
